@@ -12,6 +12,10 @@ import SpVerif.Model.Metadata
 import SpVerif.Model.Prompt
 import SpVerif.Model.FileData
 import SpVerif.Model.Tlv
+import SpVerif.Model.Srv1
+import SpVerif.Model.Cds
+import SpVerif.Model.SeqCount
+import SpVerif.Model.ByteField
 /-!
 # The shift-and-mask expressions of the Python source equal the arithmetic of the models
 
@@ -68,6 +72,7 @@ theorem or_add_11 (X b : Nat) (hX : X % 2048 = 0) (hb : b < 2048) : X ||| b = X 
 theorem or_add_12 (X b : Nat) (hX : X % 4096 = 0) (hb : b < 4096) : X ||| b = X + b := or_add 12 X b hX hb
 theorem or_add_13 (X b : Nat) (hX : X % 8192 = 0) (hb : b < 8192) : X ||| b = X + b := or_add 13 X b hX hb
 theorem or_add_14 (X b : Nat) (hX : X % 16384 = 0) (hb : b < 16384) : X ||| b = X + b := or_add 14 X b hX hb
+theorem or_add_16 (X b : Nat) (hX : X % 65536 = 0) (hb : b < 65536) : X ||| b = X + b := or_add 16 X b hX hb
 
 theorem and_0x01 (x : Nat) : x &&& 0x01 = x % 2 := Nat.and_two_pow_sub_one_eq_mod x 1
 theorem and_0x03 (x : Nat) : x &&& 0x03 = x % 4 := Nat.and_two_pow_sub_one_eq_mod x 2
@@ -97,7 +102,7 @@ macro "bits_norm" : tactic => `(tactic|
 /-- `|||` of disjoint bit ranges to `+`, innermost first -/
 macro "bits_or" : tactic => `(tactic|
   simp (disch := omega) only [or_add_1, or_add_2, or_add_3, or_add_4, or_add_5, or_add_6, or_add_7, or_add_8,
-    or_add_11, or_add_12, or_add_13, or_add_14])
+    or_add_11, or_add_12, or_add_13, or_add_14, or_add_16])
 macro "bits" : tactic => `(tactic| ((try bits_norm); (try bits_or); (try omega)))
 
 theorem b2n_lt (b : Bool) : Uslp.b2n b < 2 := by cases b <;> decide
@@ -476,5 +481,108 @@ theorem statusFromInt_model (action status : Nat) :
       if map_int_status_code_to_enum action status ∈ statusCodesNat
       then ((map_int_status_code_to_enum action status : Nat) : Int) else statusInvalid := rfl
 end C08
+
+/-! ## PUS request id (`spacepackets/ecss/req_id.py`, C15) -/
+section C15
+open SpVerif.SpacePacket SpVerif.Srv1
+
+/-- right-hand side: the version argument of the result of `ReqId.unpack` -/
+theorem reqId_unpack_version_eq (w0 : Nat) : reqId_unpack_version w0 = w0 / 8192 % 8 := by
+  unfold reqId_unpack_version; bits
+theorem reqId_pack_word0_eq (r : ReqId) (ht : r.pid.ptype < 2) (hs : r.pid.shf < 2) (ha : r.pid.apid < 2048) :
+    reqId_pack_word0 r.version r.pid.ptype r.pid.shf r.pid.apid = r.word0 := by
+  unfold reqId_pack_word0 ReqId.word0 PacketId.raw; rw [packetId_raw_eq _ _ _ hs ha]; unfold pidRaw; bits
+theorem reqId_pack_word1_eq (r : ReqId) (hc : r.psc.count < 16384) :
+    reqId_pack_word1 r.psc.flags r.psc.count = r.psc.raw := by
+  unfold reqId_pack_word1 Psc.raw; exact packetSeqCtrl_raw_eq _ _ hc
+theorem reqId_as_u32_word0_eq (r : ReqId) (ht : r.pid.ptype < 2) (hs : r.pid.shf < 2) (ha : r.pid.apid < 2048) :
+    reqId_as_u32_word0 r.version r.pid.ptype r.pid.shf r.pid.apid = r.word0 := by
+  unfold reqId_as_u32_word0 ReqId.word0 PacketId.raw; rw [packetId_raw_eq _ _ _ hs ha]; unfold pidRaw; bits
+theorem reqId_as_u32_eq (r : ReqId) (hf : r.psc.flags < 4) (hc : r.psc.count < 16384) :
+    reqId_as_u32 r.word0 r.psc.flags r.psc.count = r.asU32 := by
+  unfold reqId_as_u32 ReqId.asU32 Psc.raw; rw [packetSeqCtrl_raw_eq _ _ hc]; unfold pscRaw; bits
+
+/-- `RequestId.as_u32` of the model, through the translated expressions -/
+theorem reqId_asU32_model (r : ReqId) (ht : r.pid.ptype < 2) (hs : r.pid.shf < 2) (ha : r.pid.apid < 2048) (hf : r.psc.flags < 4)
+    (hc : r.psc.count < 16384) :
+    r.asU32 = reqId_as_u32 (reqId_as_u32_word0 r.version r.pid.ptype r.pid.shf r.pid.apid) r.psc.flags r.psc.count := by
+  rw [reqId_as_u32_word0_eq r ht hs ha, reqId_as_u32_eq r hf hc]
+end C15
+
+/-! ## CDS short timestamp (`spacepackets/ccsds/time/cds.py`, C14) -/
+section C14
+
+/-- right-hand side: the P-field octet of `Stamp.pack` -/
+theorem cds_pfield_eq : cds_pfield = Cds.CDS_ID * 16 := by decide
+/-- right-hand side: the argument of `enumOf [0, 1]` in `unpackFromRaw` -/
+theorem cds_len_of_day_seg_eq (p : Nat) : cds_len_of_day_seg p = p / 4 % 2 := by
+  unfold cds_len_of_day_seg; bits
+/-- right-hand side: the value compared with `CDS_ID` in `unpackFromRaw` -/
+theorem cds_unpack_time_code_eq (p : Nat) : cds_unpack_time_code p = p / 16 % 8 := by
+  unfold cds_unpack_time_code; bits
+/-- right-hand side: the whole-day part of `Stamp.unixMs`, in seconds (for a non-negative Unix day) -/
+theorem cds_unix_seconds_of_days_eq (d : Nat) :
+    ((cds_unix_seconds_of_days d : Nat) : Int) = (d : Int) * Cds.SECONDS_PER_DAY := by
+  unfold cds_unix_seconds_of_days Cds.SECONDS_PER_DAY; omega
+/-- right-hand side: `ms1` of `Stamp.add` (non-negative millisecond of day; `timedelta` fields are never negative) -/
+theorem cds_add_ms_of_day_eq (ms us sec : Nat) :
+    ((cds_add_ms_of_day ms us sec : Nat) : Int) = (ms : Int) + ((us : Int) / 1000 + (sec : Int) * 1000) := by
+  unfold cds_add_ms_of_day; omega
+theorem cds_add_ms_per_day_eq : ((cds_add_ms_per_day : Nat) : Int) = Cds.MS_PER_DAY := by decide
+/-- right-hand side: the bound of the overflow checks of `Stamp.add` -/
+theorem cds_add_max_days_eq : ((cds_add_max_days : Nat) : Int) = 2 ^ 16 - 1 := by decide
+/-- right-hand side: the millisecond component of `fromUnixMicros` -/
+theorem cds_from_datetime_ms_eq (sec us : Nat) :
+    ((cds_from_datetime_ms sec us : Nat) : Int) = (sec : Int) * 1000 + (us : Int) / 1000 := by
+  unfold cds_from_datetime_ms; omega
+end C14
+
+/-! ## Sequence counters (`spacepackets/seqcount.py`, C19) -/
+section C19
+
+theorem seqMem_modulus_eq (w : Nat) : seqMem_modulus w = 2 ^ w := rfl
+/-- right-hand side: the value returned by `Mem.getAndIncrement` (the stored count is below the modulus) -/
+theorem seqMem_curr_count_eq (m : SeqCount.Mem) (h : m.count < 2 ^ m.width) :
+    seqMem_curr_count m.count (seqMem_modulus m.width) = m.getAndIncrement.1 := by
+  unfold seqMem_curr_count seqMem_modulus SeqCount.Mem.getAndIncrement; exact Nat.mod_eq_of_lt h
+/-- right-hand side: the count stored by `Mem.getAndIncrement` -/
+theorem seqMem_next_count_eq (m : SeqCount.Mem) :
+    seqMem_next_count m.count (seqMem_modulus m.width) = m.getAndIncrement.2.count := rfl
+/-- right-hand side: the bound of `checkCount` -/
+theorem seqFile_check_max_eq (w : Nat) : seqFile_check_max w = 2 ^ w - 1 := rfl
+/-- right-hand sides: the bound and the successor of `incr` -/
+theorem seqFile_incr_max_eq (w : Nat) : seqFile_incr_max w = 2 ^ w - 1 := rfl
+theorem seqFile_incr_next_eq (v : Nat) : seqFile_incr_next v = v + 1 := rfl
+
+/-- `_increment_with_rollover` of the model, through the translated expressions -/
+theorem seqFile_incr_model (w v : Nat) :
+    SeqCount.incr w v = if v ≥ seqFile_incr_max w then 0 else seqFile_incr_next v := rfl
+end C19
+
+/-! ## Integer/octet helpers and unsigned byte fields (`spacepackets/util.py`, C20) -/
+section C20
+
+theorem two_pow_mul_8 (n : Nat) : 2 ^ (n * 8) = 256 ^ n := by
+  rw [Nat.mul_comm, Nat.pow_mul]
+/-- right-hand side: the bound of `toSigned` (`byte_num` is 1, 2, 4 or 8 there) -/
+theorem toSigned_max_eq (n : Nat) (h : 1 ≤ n) :
+    ((toSigned_max n : Nat) : Int) = ((256 ^ n / 2 : Nat) : Int) - 1 := by
+  unfold toSigned_max
+  have h2 : 256 ^ n = 2 ^ (n * 8 - 1) * 2 := by
+    rw [← two_pow_mul_8, ← Nat.pow_succ]; congr 1; omega
+  have h3 : 0 < 2 ^ (n * 8 - 1) := Nat.two_pow_pos _
+  rw [h2]; omega
+/-- right-hand side: the bound of `toUnsigned` -/
+theorem toUnsigned_max_eq (n : Nat) : ((toUnsigned_max n : Nat) : Int) = ((256 ^ n : Nat) : Int) - 1 := by
+  unfold toUnsigned_max
+  have h3 : 0 < 256 ^ n := Nat.pow_pos (by decide)
+  rw [two_pow_mul_8]; omega
+/-- right-hand side: the bound of `verifyInt` -/
+theorem byteField_verify_int_max_eq (w : Nat) :
+    ((byteField_verify_int_max w : Nat) : Int) = ((256 ^ w : Nat) : Int) - 1 := by
+  unfold byteField_verify_int_max
+  have h3 : 0 < 256 ^ w := Nat.pow_pos (by decide)
+  rw [two_pow_mul_8]; omega
+end C20
 
 end SpVerif.Generated
